@@ -805,6 +805,11 @@ def gen_cases(run):
     for tname, nested, fm in [("deep", [], ("A", "A9")), ("deep", [], ("A/deep", "B/deep moved")), ("levels", [], ("L1/L2", "L1/M2")), ("prefix", [], ("Clips", "Clips_old")), ("names", [], ("sp ace", "sp  ace2")), ("deep", ["A"], ("A/deep", "A/deeper"))]:
         cases.append(scenario(safe(f"folder/{tname}/{'+'.join(nested) or '-'}/{posix(fm[0])}>{posix(fm[1])}"), ("folder", tname, tuple(nested), fm), S.TREES[tname], nested, folder_moves=[fm], newfiles={"unrel.txt": "unrelated"}, full=False))
 
+    # ---- (7b) whole folder renamed while the -dr run uses another hash format than the one the folder was recorded with
+    for tname, fm in [("deep", ("A", "A9")), ("prefix", ("Clips", "Clips_old"))]:
+        cases.append(scenario(safe(f"folder-otherfmt/{tname}/{posix(fm[0])}>{posix(fm[1])}"), ("folder-otherfmt", tname, fm), S.TREES[tname], [], folder_moves=[fm],
+                              newfiles={"unrel.txt": "unrelated"}, dr=S.hargs(["c4"]), full=False))
+
     # ---- (8) time zones: renames keep mtimes; times on both sides of a DST switch and inside the repeated hour
     zones = [("Europe/Berlin", 1729990800), ("CET-1CEST,M3.5.0,M10.5.0/3", 1729992600), ("America/St_Johns", 1710052200), ("Australia/Lord_Howe", 1712417400), ("UTC", 0)]
     for z, t in zones if thorough else zones[:3]:
